@@ -83,6 +83,13 @@ def defaults_from(fn, param: str, default: str):
     return None
 
 
+def _ancestors(node):
+    cur = getattr(node, "_parent", None)
+    while cur is not None:
+        yield cur
+        cur = getattr(cur, "_parent", None)
+
+
 def search_calls(fn) -> list:
     """[(call, string argument, case-sensitivity argument or None)] for the calls of self.parse_unit_name in `fn`."""
     out = []
@@ -240,17 +247,35 @@ def yield_triplets_rule(ck, ix):
     cs_tests = [t for t in ast.walk(fn) if isinstance(t, (ast.If, ast.IfExp)) and any(isinstance(x, ast.Name) and x.id == "case_sensitive" for x in ast.walk(t.test))]
     ck.check(len(cs_tests) >= 1, "G-TWIN", "_yield_unit_triplets|case-sensitivity-distinguished", fi.loc(), "case-sensitive and case-insensitive lookups are distinguished", "the case_sensitive flag is no longer consulted")
     # the loop over all (suffix, prefix) pairs, suffix-major (the order of the readings is part of the behaviour)
-    prod = [l for l in walk_local(fn) if isinstance(l, ast.For) and isinstance(l.target, ast.Tuple) and len(l.target.elts) == 2 and all(isinstance(e, ast.Name) for e in l.target.elts)
-            and R(l.iter) in ("itertools.product(self._suffixes, self._prefixes)", "product(self._suffixes, self._prefixes)")]
+    # ... written as one loop over itertools.product(self._suffixes, self._prefixes) or as a loop over the suffixes that
+    # contains the loop over the prefixes (snapshots `tuple(self._suffixes)` held in locals are looked through)
+    def table(e):
+        """text of the registry table an iterable runs over: temporaries resolved, tuple()/list()/iter() snapshots and .keys() dropped"""
+        e = shape.resolve(e, fn)
+        while isinstance(e, ast.Call) and ((isinstance(e.func, ast.Name) and e.func.id in ("tuple", "list", "iter") and len(e.args) == 1) or (isinstance(e.func, ast.Attribute) and e.func.attr == "keys" and not e.args)):
+            e = e.args[0] if isinstance(e.func, ast.Name) else e.func.value
+        return norm(e)
+    prod = []          # (suffix variable, prefix variable, [loop statements])
+    for l in walk_local(fn):
+        if not isinstance(l, ast.For):
+            continue
+        if isinstance(l.target, ast.Tuple) and len(l.target.elts) == 2 and all(isinstance(e, ast.Name) for e in l.target.elts) \
+                and R(l.iter) in ("itertools.product(self._suffixes, self._prefixes)", "product(self._suffixes, self._prefixes)"):
+            prod.append((l.target.elts[0].id, l.target.elts[1].id, [l]))
+        elif isinstance(l.target, ast.Name) and table(l.iter) == "self._suffixes":
+            for inner in l.body:
+                if isinstance(inner, ast.For) and isinstance(inner.target, ast.Name) and table(inner.iter) == "self._prefixes":
+                    prod.append((l.target.id, inner.target.id, [l, inner]))
     if len(prod) != 1 or not ys:
         ck.fail("G-PROV", "_yield_unit_triplets|all-prefix-suffix-combinations", fi.loc(), "candidates are no longer produced by one loop over itertools.product(self._suffixes, self._prefixes)")
         return
-    S, P = [e.id for e in prod[0].target.elts]
+    S, P, pair_loops = prod[0]
+    inside = lambda y: any(p_ is pair_loops[-1] for p_ in _ancestors(y))
     is_S = lambda a_: isinstance(a_, ast.Name) and a_.id == S
     is_P = lambda a_: isinstance(a_, ast.Name) and a_.id == P
     orig = lambda a_: a_ if hasattr(a_, "_parent") else getattr(getattr(a_, "left", None), "_parent", a_)     # atoms() builds the positive form of `a != b` afresh
     framed = lambda y: shape.holds_at(y, fn, lambda a_: R(a_) == f"unit_name.startswith({P})", True) and shape.holds_at(y, fn, lambda a_: R(a_) == f"unit_name.endswith({S})", True)
-    ck.check(all(framed(y) for y in ys), "G-PROV", "_yield_unit_triplets|all-prefix-suffix-combinations", fi.loc(), "all suffix x prefix combinations that frame the string", "candidates are no longer produced for exactly the (suffix, prefix) pairs that frame the string")
+    ck.check(all(inside(y) and framed(y) for y in ys), "G-PROV", "_yield_unit_triplets|all-prefix-suffix-combinations", fi.loc(), "all suffix x prefix combinations that frame the string", "candidates are no longer produced for exactly the (suffix, prefix) pairs that frame the string")
     # the stem
     CUT, STEM = f"unit_name[len({P}):]", f"unit_name[len({P}):][:-len({S})]"
     slices = [x for x in walk_local(fn) if isinstance(x, ast.Subscript) and isinstance(x.slice, ast.Slice)]
@@ -268,7 +293,7 @@ def yield_triplets_rule(ck, ix):
             return False
         return R(a_.left.args[0]) == STEM or (b["_X"] in stem_names and shape.holds_at(orig(a_), fn, is_S, True))
     yield_nodes = [i for y in ys for i in cfg.nodes_for_ast(getattr(y, "_parent", y))]
-    loop_nodes = [n.id for n in cfg.nodes if n.kind == "for" and n.stmt is prod[0]]
+    loop_nodes = [n.id for n in cfg.nodes if n.kind == "for" and any(n.stmt is l_ for l_ in pair_loops)]
     e1 = sorted(set(shape.guard_edges(cfg, one_letter, want=True)))
     skipped = all(cfg.path(v, yield_nodes, avoid=loop_nodes) is None for (t, lab) in e1 for (v, l2) in cfg.succ[t] if l2 == lab and v not in loop_nodes)
     ck.check(bool(e1) and bool(yield_nodes) and skipped, "G-PROV", "_yield_unit_triplets|no-plural-of-one-letter-units", fi.loc(), "one-letter stems are not de-pluralised",
@@ -347,6 +372,231 @@ def yield_triplets_rule(ck, ix):
              f"a reading is produced for `self._units[{stray[0][1]}]`, which is neither the stem nor a defined spelling of the lower-cased stem" if stray else "the case-insensitive lookup no longer lower-cases the stem")
 
 
+def dedup_rule(ck, ix):
+    """_dedup_candidates, by role: U = the readings in first-occurrence order, `dict.fromkeys(candidates)` (possibly
+    snapshotted by list()/tuple(), under any name); for every reading (p, u, s) of U with a prefix the unprefixed twin
+    ('', p + u, '') is dropped - popped from U itself, or collected in a set that the returned sequence filters out -
+    and the result is tuple(U) / tuple(x for x in U if x not in <that set>): same members, same order."""
+    fi = ix.func(PR, "GenericPlainRegistry._dedup_candidates")
+    ck.analysed(fi)
+    fn, dfs = fi.node, defs_of(fi)
+
+    def unwrap(e):
+        while isinstance(e, ast.Call) and isinstance(e.func, ast.Name) and e.func.id in ("list", "tuple") and len(e.args) == 1 and not e.keywords:
+            e = e.args[0]
+        return e
+
+    def is_unique(e):
+        return norm(unwrap(shape.resolve(e, fn))) == "dict.fromkeys(candidates)"
+
+    def empty_set(name):
+        vals = [v for (v, k, st) in dfs.defs.get(name, []) if k != "fill"]
+        return bool(vals) and name not in dfs.params and all(v is not None and norm(v) == "set()" for v in vals)
+    # how the result is produced: ('pop', U name) or ('filter', name of the set of dropped keys)
+    results = []
+    for r in shape.returns_of(fn):
+        v = r.value
+        if not (isinstance(v, ast.Call) and isinstance(v.func, ast.Name) and v.func.id == "tuple" and len(v.args) == 1):
+            results.append(None)
+            continue
+        v = v.args[0]
+        if isinstance(v, (ast.GeneratorExp, ast.ListComp)) and len(v.generators) == 1 and isinstance(v.generators[0].target, ast.Name):
+            g = v.generators[0]
+            facts = [f_ for i in g.ifs for f_ in shape.conjuncts(i, "t")]
+            b = shape.match(f"{g.target.id} in _SH", facts[0][0]) if len(facts) == 1 and facts[0][1] is False else None
+            ok = isinstance(v.elt, ast.Name) and v.elt.id == g.target.id and is_unique(g.iter) and b is not None and empty_set(b["_SH"])
+            results.append(("filter", b["_SH"]) if ok else None)
+        else:
+            results.append(("pop", norm(v)) if isinstance(v, ast.Name) and is_unique(v) else None)
+    ck.floor("G-PROV", len(results), 1, "value returned by _dedup_candidates")
+    ck.check(all(r is not None for r in results), "G-PROV", "_dedup_candidates|order-preserving", fi.loc(), "order-preserving deduplication", "candidate order is no longer preserved (dict.fromkeys ... tuple)")
+    loops_ = [l for l in walk_local(fn) if isinstance(l, ast.For) and isinstance(l.target, ast.Tuple) and len(l.target.elts) == 3 and all(isinstance(x, ast.Name) for x in l.target.elts) and is_unique(l.iter)]
+    okd = bool(loops_) and any(r is not None for r in results)
+    for l in loops_:
+        p_, u_, s_ = [x.id for x in l.target.elts]
+        twin = f"('', {p_} + {u_}, '')"
+        drops = []
+        for c_ in ast.walk(l):
+            if isinstance(c_, ast.Call) and isinstance(c_.func, ast.Attribute) and isinstance(c_.func.value, ast.Name) and c_.args and norm(c_.args[0]) == twin:
+                how = {"pop": "pop", "add": "filter"}.get(c_.func.attr)
+                if how is not None and all(r is None or r == (how, c_.func.value.id) for r in results):
+                    drops.append(c_)
+        okd = okd and len(drops) == 1 and shape.holds_at(drops[0], fn, lambda a_: isinstance(a_, ast.Name) and a_.id == p_, True)
+    ck.check(okd, "G-PROV", "_dedup_candidates|prefixed-reading-preferred", fi.loc(), "the unprefixed twin ('', prefix+unit, '') of a prefixed reading is dropped", "_dedup_candidates no longer drops the unprefixed twin of a prefixed reading")
+
+
+def delta_substitution_rule(ck, ix):
+    """_parse_units_as_container, by role: PARSED = anything that resolves to `ParserHelper.from_string(...)` (under any
+    name, through aliases and spliced phase helpers); the loop runs over PARSED (or its items); CANON = a name bound to
+    `self.get_name(<loop unit>, case_sensitive=case_sensitive)`; EXP = the exponent of the loop unit (`PARSED[unit]` or
+    the second loop variable of `.items()`)."""
+    fi = ix.func(PR, "GenericPlainRegistry._parse_units_as_container")
+    fn, cfg = fi.node, cfg_of(fi)
+
+    def parsed(e):
+        return isinstance(e, ast.expr) and shape.match("ParserHelper.from_string(*_R)", shape.resolve(e, fn)) is not None
+    loops = []           # (loop, unit variable, exponent variable or None)
+    for l in walk_local(fn):
+        if isinstance(l, ast.For):
+            it = l.iter
+            if isinstance(it, ast.Call) and isinstance(it.func, ast.Attribute) and it.func.attr == "items" and not it.args and parsed(it.func.value) \
+                    and isinstance(l.target, ast.Tuple) and len(l.target.elts) == 2 and all(isinstance(x, ast.Name) for x in l.target.elts):
+                loops.append((l, l.target.elts[0].id, l.target.elts[1].id))
+            elif isinstance(l.target, ast.Name) and (parsed(it) or (isinstance(it, ast.Call) and isinstance(it.func, ast.Attribute) and it.func.attr == "keys" and parsed(it.func.value))):
+                loops.append((l, l.target.id, None))
+    ck.floor("G-PROV", len(loops), 1, "loop over the parsed unit expression in _parse_units_as_container")
+    units = {u for (l, u, x) in loops}
+
+    def exponent(e):
+        """the exponent of the current unit: the second loop variable, or PARSED[<unit variable>] (through a temporary)"""
+        if isinstance(e, ast.Name) and any(x == e.id for (l, u, x) in loops):
+            return True
+        v = shape.unalias(e, fn) if isinstance(e, ast.Name) else e
+        return isinstance(v, ast.Subscript) and parsed(v.value) and norm(v.slice) in units
+    named = [a_ for a_ in walk_local(fn) if isinstance(a_, ast.Assign) and len(a_.targets) == 1 and isinstance(a_.targets[0], ast.Name) and isinstance(a_.value, ast.Call) and call_name(a_.value) == "get_name"]
+    ck.floor("G-PROV", len(named), 1, "canonical name taken from get_name in _parse_units_as_container")
+    canon = {a_.targets[0].id for a_ in named}          # the canonical name of the current unit, whatever the local is called
+    subst = nodes_with(cfg, lambda x: isinstance(x, ast.Assign) and norm(x.targets[0]) in canon and any(norm(x.value) in (f"'delta_' + {c}", f"f'delta_{{{c}}}'") for c in canon))
+    ck.check(len(subst) == 1, "G-DOM", "_parse_units_as_container|delta-substitution-present", fi.loc(), "delta substitution present", "the delta_ substitution for offset units in compound expressions is gone")
+
+    def _is_compound_or_exponent(a_):
+        """`<more than one unit> or <exponent != 1>` (the second operand may repeat `not many and`)"""
+        if not (isinstance(a_, ast.BoolOp) and isinstance(a_.op, ast.Or) and len(a_.values) == 2):
+            return False
+        first = shape.match("len(_X) > 1", shape.unalias(a_.values[0], fn))
+        second = a_.values[1]
+        if isinstance(second, ast.BoolOp) and isinstance(second.op, ast.And) and len(second.values) == 2 and isinstance(second.values[0], ast.UnaryOp) \
+                and norm(shape.unalias(second.values[0].operand, fn)) == norm(shape.unalias(a_.values[0], fn)):
+            second = second.values[1]
+        many = first is not None and parsed(shape.unalias(a_.values[0], fn).left.args[0])
+        return many and isinstance(second, ast.Compare) and len(second.ops) == 1 and isinstance(second.ops[0], ast.NotEq) and norm(second.comparators[0]) == "1" and exponent(second.left)
+    is_as_delta = lambda a_: isinstance(a_, ast.Name) and a_.id == "as_delta"
+
+    def is_mult(a_):
+        a_ = shape.unalias(a_, fn)                  # a flag holding the test is looked through
+        if not (isinstance(a_, ast.Attribute) and a_.attr == "is_multiplicative"):
+            return False
+        b = shape.match("self._units[_C]", shape.unalias(a_.value, fn))          # a local holding the definition is looked through
+        return b is not None and b["_C"] in canon
+    for s in subst:
+        st = cfg.nodes[s].ast
+        ck.check(shape.holds_at(st, fn, is_as_delta, True) and shape.holds_at(st, fn, _is_compound_or_exponent, True), "G-DOM", "_parse_units_as_container|delta-only-if-compound-or-exponent", fi.loc(st),
+                 "substitution only with as_delta and for a compound expression or an exponent other than 1", "offset units are replaced by delta units without the `as_delta and (more than one unit or exponent != 1)` guard")
+        ck.check(shape.holds_at(st, fn, is_mult, False), "G-DOM", "_parse_units_as_container|delta-only-if-non-multiplicative", fi.loc(st), "substitution only for non-multiplicative units",
+                 "offset units are replaced by delta units without the non-multiplicative guard (multiplicative units would get a delta_ twin that does not exist)")
+    adds = [c_ for c_ in walk_local(fn) if isinstance(c_, ast.Call) and call_name(c_) == "add" and len(c_.args) == 2 and norm(c_.args[0]) in canon]
+    ck.check(len(adds) == 1 and exponent(adds[0].args[1]), "G-PROV", "_parse_units_as_container|many-means-more-than-one-unit", fi.loc(), "every unit is accumulated with its own exponent", "units are no longer accumulated with their own exponent")
+    okn = any(shape.match("self.get_name(_U, case_sensitive=case_sensitive)", a_.value) is not None and norm(a_.value.args[0]) in units for a_ in named)
+    ck.check(okn and len(adds) == 1, "G-PROV", "_parse_units_as_container|canonical-names-with-exponents", fi.loc(),
+             "every unit is added under its canonical name with its exponent", "units are no longer accumulated under get_name(name, case_sensitive=...) with their exponent")
+
+    def scale_is_one(a_):
+        if not (isinstance(a_, ast.Compare) and len(a_.ops) == 1 and isinstance(a_.ops[0], ast.Eq)):
+            return False
+        sides = [shape.unalias(a_.left, fn), shape.unalias(a_.comparators[0], fn)]
+        return any(isinstance(x, ast.Attribute) and x.attr == "scale" and parsed(x.value) for x in sides) and any(norm(x) == "1" for x in sides)
+    sc = shape.guard_edges(cfg, scale_is_one, want=False)
+    ck.check(bool(sc) and all(edge_leads_only_to_raise(cfg, t, lab) is None for (t, lab) in sc), "G-DOM", "_parse_units_as_container|scaling-factor-rejected", fi.loc(), "a numeric factor in a unit expression raises", "unit expressions with a scaling factor are no longer rejected")
+
+
+class _Undecided(Exception):
+    pass
+
+
+def outcome_table(fn, atom_of, n_atoms: int) -> dict:
+    """Decision table of a small predicate-like function: for every truth assignment of its `n_atoms` atomic conditions
+    the outcome of running its body - 'raise:<Exception>', 'return' or 'end'.  `atom_of(expr)` gives (index, polarity)
+    for an expression that IS an atomic condition (after the locals that hold intermediate values have been substituted),
+    else None.  Flags, early exits, if/elif chains, conditional expressions, and/or/not are interpreted; anything else
+    raises _Undecided.  Two spellings of the same decision have the same table."""
+    import itertools as _it
+
+    def subst(e, env):
+        class S(ast.NodeTransformer):
+            def visit_Name(self, n):
+                v = env.get(n.id)
+                if isinstance(n.ctx, ast.Load) and isinstance(v, ast.AST):
+                    return subst(v, env)
+                return n
+        return S().visit(ast.parse(ast.unparse(e), mode="eval").body)
+
+    def ev(e, env, oracle):
+        if isinstance(e, ast.Constant):
+            return bool(e.value)
+        if isinstance(e, ast.UnaryOp) and isinstance(e.op, ast.Not):
+            return not ev(e.operand, env, oracle)
+        if isinstance(e, ast.BoolOp):
+            want = isinstance(e.op, ast.Or)
+            for v in e.values:
+                if ev(v, env, oracle) is want:
+                    return want
+            return not want
+        if isinstance(e, ast.IfExp):
+            return ev(e.body if ev(e.test, env, oracle) else e.orelse, env, oracle)
+        if isinstance(e, ast.Name) and e.id in env:
+            return ev(env[e.id], env, oracle)
+        a = atom_of(subst(e, env))
+        if a is None:
+            raise _Undecided(norm(e))
+        return oracle[a[0]] is a[1]
+
+    def run_(stmts, env, oracle):
+        for st in stmts:
+            if isinstance(st, ast.If):
+                r = run_(st.body if ev(st.test, env, oracle) else st.orelse, env, oracle)
+                if r is not None:
+                    return r
+            elif isinstance(st, (ast.Assign, ast.AnnAssign)) and isinstance(st.targets[0] if isinstance(st, ast.Assign) else st.target, ast.Name) and st.value is not None:
+                name = (st.targets[0] if isinstance(st, ast.Assign) else st.target).id
+                env[name] = subst(st.value, env)            # a flag or an intermediate value: evaluated / substituted where it is used
+            elif isinstance(st, ast.Raise):
+                exc = st.exc.func if isinstance(st.exc, ast.Call) else st.exc
+                return "raise:" + (norm(exc) if exc is not None else "")
+            elif isinstance(st, ast.Return):
+                return "return"
+            elif isinstance(st, (ast.Pass, ast.Expr)) and not (isinstance(st, ast.Expr) and not isinstance(st.value, ast.Constant)):
+                continue
+            else:
+                raise _Undecided(norm(st)[:60])
+        return None
+    table = {}
+    for oracle in _it.product((False, True), repeat=n_atoms):
+        table[oracle] = run_(fn.body, {}, oracle) or "end"
+    return table
+
+
+def private_name_rule(ck, ix):
+    """getattr_maybe_raise raises AttributeError exactly for: names ending in '__', names that are all underscores, and
+    names starting with '_' whose first other character is not a digit.  Decided as a decision table over the four
+    atomic conditions, so an `or` chain, a flag set by if/elif, guard clauses ... are the same rule."""
+    f = ix.func("pint.util", "getattr_maybe_raise")
+    ck.analysed(f)
+    ATOMS = [("item.endswith('__')", 0, True),
+             ("len(item.lstrip('_')) == 0", 1, True), ("item.lstrip('_') == ''", 1, True), ("item.lstrip('_')", 1, False), ("len(item.lstrip('_'))", 1, False),
+             ("len(item.lstrip('_')) > 0", 1, False), ("len(item.lstrip('_')) >= 1", 1, False), ("len(item.lstrip('_')) < 1", 1, True),
+             ("item.startswith('_')", 2, True), ("item[0] == '_'", 2, True), ("item[:1] == '_'", 2, True),
+             ("item.lstrip('_')[0].isdigit()", 3, True)]
+
+    def atom_of(e):
+        pol = True
+        if isinstance(e, ast.Compare) and len(e.ops) == 1 and isinstance(e.ops[0], ast.NotEq):
+            e, pol = ast.Compare(left=e.left, ops=[ast.Eq()], comparators=e.comparators), False
+        for pat, i, p_ in ATOMS:
+            if norm(e) == norm(ast.parse(pat, mode="eval").body):
+                return i, (p_ is pol)
+        return None
+    try:
+        table = outcome_table(f.node, atom_of, 4)
+    except _Undecided as ex:
+        ck.floor("G-PROV", 0, 1, f"decidable private-name test in getattr_maybe_raise (cannot interpret `{ex}`)")
+        return
+    wrong = [o for o, out in table.items() if (out == "raise:AttributeError") is not (o[0] or o[1] or (o[2] and not o[3])) or (out not in ("raise:AttributeError", "end", "return"))]
+    names = ("ends with '__'", "all underscores", "starts with '_'", "first other character is a digit")
+    ck.check(not wrong, "G-PROV", "getattr_maybe_raise|private-name-rule", f.loc(),
+             "dunder, all-underscore and _name (unless _<digit>) raise AttributeError",
+             "the private-name rule of getattr_maybe_raise changed" + ("" if not wrong else ": for a name that " + ", ".join(("" if v else "not: ") + n for v, n in zip(wrong[0], names)) + f" the outcome is {table[wrong[0]]}"))
+
+
 def run(ck, ix, tier):
     # ------------------------------------------------------------ get_name
     from ..lib import inlined as _inl
@@ -394,7 +644,7 @@ def run(ck, ix, tier):
 
     def unit_is_multiplicative(a_):
         """`self._units[<unit of the first reading>].is_multiplicative` (a local holding the definition is resolved)"""
-        b = shape.match("self._units[_U].is_multiplicative", shape.resolve(a_, fi.node)) if isinstance(a_, ast.Attribute) else None
+        b = shape.match("self._units[_U].is_multiplicative", shape.resolve(a_, fi.node)) if isinstance(a_, (ast.Attribute, ast.Name)) else None      # a flag holding the test is looked through
         return b is not None and b["_U"] in rd.units
     nonmult = shape.guard_edges(cfg, unit_is_multiplicative, want=False)       # edges on which the unit is known to be an offset unit
     gate = sorted({g for (g, lab) in nonmult})
@@ -444,21 +694,7 @@ def run(ck, ix, tier):
     parse_unit_name_rule(ck, ix)
     yield_triplets_rule(ck, ix)
     from .. import shape as _sht
-    fi = ix.func(PR, "GenericPlainRegistry._dedup_candidates")
-    ck.analysed(fi)
-    src = norm(fi.node)
-    # ordered dedup (dict.fromkeys), then for every prefixed reading (p, u, s) the unprefixed twin ('', p + u, '') is dropped
-    fk = [a_ for a_ in walk_local(fi.node) if isinstance(a_, ast.Assign) and norm(a_.value) == "dict.fromkeys(candidates)"]
-    tbl = norm(fk[0].targets[0]) if fk else "candidates"
-    loops_ = [l for l in walk_local(fi.node) if isinstance(l, ast.For) and isinstance(l.target, ast.Tuple) and len(l.target.elts) == 3 and tbl in norm(l.iter)]
-    okd = False
-    for l in loops_:
-        p_, u_, s_ = [norm(e) for e in l.target.elts]
-        pops = [c_ for c_ in ast.walk(l) if isinstance(c_, ast.Call) and call_name(c_) == "pop" and norm(c_.func.value) == tbl]
-        okd = okd or (len(pops) == 1 and norm(pops[0].args[0]) == f"('', {p_} + {u_}, '')" and _sht.holds_at(pops[0], fi.node, lambda a_: isinstance(a_, ast.Name) and a_.id == p_, True))
-    ck.check(okd, "G-PROV", "_dedup_candidates|prefixed-reading-preferred", fi.loc(), "the unprefixed twin ('', prefix+unit, '') of a prefixed reading is dropped", "_dedup_candidates no longer drops the unprefixed twin of a prefixed reading")
-    rets_ = [norm(r.value) for r in _sht.returns_of(fi.node)]
-    ck.check(bool(fk) and rets_ == [f"tuple({tbl})"], "G-PROV", "_dedup_candidates|order-preserving", fi.loc(), "order-preserving deduplication", "candidate order is no longer preserved (dict.fromkeys ... tuple)")
+    dedup_rule(ck, ix)
 
     casei_writers_rule(ck, ix)
     fi = ix.func(PR, "GenericPlainRegistry._helper_adder")
@@ -472,48 +708,7 @@ def run(ck, ix, tier):
 
     # ------------------------------------------------------------ parse cache + delta substitution
     memo.rule_parse_unit_memo(ck, ix)
-    fi = ix.func(PR, "GenericPlainRegistry._parse_units_as_container")
-    cfg = cfg_of(fi)
-    cn_ = [a_.targets[0].id for a_ in walk_local(fi.node) if isinstance(a_, ast.Assign) and isinstance(a_.targets[0], ast.Name) and isinstance(a_.value, ast.Call) and call_name(a_.value) == "get_name"]
-    CN = cn_[0] if cn_ else "cname"        # the canonical name of the current unit, whatever the local is called
-    subst = nodes_with(cfg, lambda x: isinstance(x, ast.Assign) and norm(x.targets[0]) == CN and norm(x.value) in (f"'delta_' + {CN}", f"f'delta_{{{CN}}}'"))
-    ck.check(len(subst) == 1, "G-DOM", "_parse_units_as_container|delta-substitution-present", fi.loc(), "delta substitution present", "the delta_ substitution for offset units in compound expressions is gone")
-    from .. import shape
-    ph = [a_.targets[0].id for a_ in walk_local(fi.node) if isinstance(a_, ast.Assign) and isinstance(a_.targets[0], ast.Name) and isinstance(a_.value, ast.Call) and norm(a_.value.func) == "ParserHelper.from_string"]
-    PHV = ph[0] if ph else "units"          # the parsed expression (a ParserHelper), whatever it is called
-    loopv = [l for l in walk_local(fi.node) if isinstance(l, ast.For) and any(isinstance(x, ast.Name) and x.id == PHV for x in ast.walk(l.iter))]
-    lname = norm(loopv[0].target.elts[0] if loopv and isinstance(loopv[0].target, ast.Tuple) else loopv[0].target) if loopv else "name"
-    expv = {f"{PHV}[{lname}]"}
-    if loopv and isinstance(loopv[0].target, ast.Tuple) and len(loopv[0].target.elts) == 2:
-        expv.add(norm(loopv[0].target.elts[1]))
-
-    def _is_compound_or_exponent(a_):
-        """`<more than one unit> or <exponent != 1>` (the second operand may repeat `not many and`)"""
-        if not (isinstance(a_, ast.BoolOp) and isinstance(a_.op, ast.Or) and len(a_.values) == 2):
-            return False
-        first = shape.rnorm(a_.values[0], fi.node, 1)
-        second = a_.values[1]
-        if isinstance(second, ast.BoolOp) and isinstance(second.op, ast.And) and len(second.values) == 2 and isinstance(second.values[0], ast.UnaryOp):
-            second = second.values[1]
-        sx = shape.resolve(second, fi.node, 1)
-        return first == f"len({PHV}) > 1" and isinstance(second, ast.Compare) and isinstance(second.ops[0], ast.NotEq) and norm(second.comparators[0]) == "1" and (norm(second.left) in expv or norm(sx.left) in expv)
-    is_as_delta = lambda a_: isinstance(a_, ast.Name) and a_.id == "as_delta"
-    is_mult = lambda a_: isinstance(a_, ast.Attribute) and a_.attr == "is_multiplicative" and (f"self._units[{CN}]" in norm(a_.value) or f"self._units[{CN}]" in shape.rnorm(a_.value, fi.node, 1))
-    for s in subst:
-        st = cfg.nodes[s].ast
-        ck.check(shape.holds_at(st, fi.node, is_as_delta, True) and shape.holds_at(st, fi.node, _is_compound_or_exponent, True), "G-DOM", "_parse_units_as_container|delta-only-if-compound-or-exponent", fi.loc(st),
-                 "substitution only with as_delta and for a compound expression or an exponent other than 1", "offset units are replaced by delta units without the `as_delta and (more than one unit or exponent != 1)` guard")
-        ck.check(shape.holds_at(st, fi.node, is_mult, False), "G-DOM", "_parse_units_as_container|delta-only-if-non-multiplicative", fi.loc(st), "substitution only for non-multiplicative units",
-                 "offset units are replaced by delta units without the non-multiplicative guard (multiplicative units would get a delta_ twin that does not exist)")
-    src = norm(fi.node)
-    adds = [c_ for c_ in walk_local(fi.node) if isinstance(c_, ast.Call) and call_name(c_) == "add" and len(c_.args) == 2 and norm(c_.args[0]) == CN]
-    ck.check(len(adds) == 1 and (norm(adds[0].args[1]) in expv or shape.rnorm(adds[0].args[1], fi.node, 1) in expv), "G-PROV", "_parse_units_as_container|many-means-more-than-one-unit", fi.loc(), "every unit is accumulated with its own exponent", "units are no longer accumulated with their own exponent")
-    okn = any(isinstance(a_, ast.Assign) and norm(a_.targets[0]) == CN and isinstance(a_.value, ast.Call) and call_name(a_.value) == "get_name" and "case_sensitive=case_sensitive" in norm(a_.value) for a_ in walk_local(fi.node))
-    ck.check(okn and len(adds) == 1, "G-PROV", "_parse_units_as_container|canonical-names-with-exponents", fi.loc(),
-             "every unit is added under its canonical name with its exponent", "units are no longer accumulated under get_name(name, case_sensitive=...) with their exponent")
-    scaled = shape.guard_edges(cfg, lambda a_: isinstance(a_, ast.Compare) and isinstance(a_.ops[0], ast.Eq) and sorted([norm(a_.left), norm(a_.comparators[0])]) == sorted([f"{PHV}.scale", "1"]), want=False)
-    sc = scaled
-    ck.check(bool(sc) and all(edge_leads_only_to_raise(cfg, t, lab) is None for (t, lab) in sc), "G-DOM", "_parse_units_as_container|scaling-factor-rejected", fi.loc(), "a numeric factor in a unit expression raises", "unit expressions with a scaling factor are no longer rejected")
+    delta_substitution_rule(ck, ix)
     fi = ix.func(NR, "GenericNonMultiplicativeRegistry.parse_units_as_container")
     ck.analysed(fi)
     ck.check(defaults_from(fi.node, "as_delta", "self.default_as_delta") is not None, "G-PROV", "parse_units_as_container|default_as_delta", fi.loc(), "as_delta defaults to the registry's default_as_delta", "as_delta no longer defaults to default_as_delta")
@@ -537,11 +732,7 @@ def run(ck, ix, tier):
     hs = [h for t in walk_local(f.node) if isinstance(t, ast.Try) for h in t.handlers]
     ok = len(hs) == 1 and hs[0].type is not None and norm(hs[0].type) == "UndefinedUnitError" and any(isinstance(r, ast.Return) and norm(r.value) == "False" for r in ast.walk(hs[0]))
     ck.check(ok, "G-ERR", "registry.__contains__|only-UndefinedUnitError-means-absent", f.loc(), "exactly UndefinedUnitError maps to False", "__contains__ no longer maps exactly UndefinedUnitError to False")
-    f = ix.func("pint.util", "getattr_maybe_raise")
-    ck.analysed(f)
-    src = norm(f.node)
-    ck.check("item.endswith('__')" in src and "len(item.lstrip('_')) == 0" in src and "item.startswith('_') and (not item.lstrip('_')[0].isdigit())" in src and "raise AttributeError" in src, "G-PROV", "getattr_maybe_raise|private-name-rule", f.loc(),
-             "dunder, all-underscore and _name (unless _<digit>) raise AttributeError", "the private-name rule of getattr_maybe_raise changed")
+    private_name_rule(ck, ix)
     ck.rule("G-DET", "an iteration whose order reaches the result runs over an ordered collection")
     ordered_candidates_rule(ck, ix)
     return EXPLANATION
